@@ -141,6 +141,12 @@ func c19Child(spec string) {
 		c19LongRun(draws)
 		return
 	}
+	if strings.HasPrefix(spec, "pause/") {
+		var secs, n int
+		fmt.Sscanf(spec, "pause/%d/%d", &secs, &n)
+		c19Pause(time.Duration(secs)*time.Second, n)
+		return
+	}
 	control := strings.HasPrefix(spec, "control")
 	if !control {
 		fmt.Sscanf(spec, "%d/%d/%d/%d", &g, &procs, &draws, &seed)
@@ -256,6 +262,67 @@ func c19Child(spec string) {
 			res.MinDistinctWindow = len(d)
 		}
 	}
+	json.NewEncoder(os.Stdout).Encode(res)
+}
+
+// c19Pause: one goroutine draws IDs at once, then nothing calls the generator for the given pause, then
+// four other goroutines draw. The late goroutines were started before the early one drew anything and
+// only sleep in between, so nothing orders their calls after the early draws: whatever the generator
+// does differently after a long silence (re-seeding, rebuilding state) is visible to the race detector
+// and to the duplicate check across the pause.
+func c19Pause(pause time.Duration, n int) {
+	res := c19Result{G: 5, Procs: runtime.GOMAXPROCS(0), RaceEnabled: raceEnabled}
+	ids := make([][]uu.ID, 5)
+	var wg sync.WaitGroup
+	for gi := 1; gi < 5; gi++ {
+		wg.Add(1)
+		go func(gi int) {
+			defer wg.Done()
+			time.Sleep(pause + time.Duration(gi%2)*time.Millisecond)
+			local := make([]uu.ID, 0, n)
+			for k := 0; k < n; k++ {
+				local = append(local, uu.RandomID())
+				if k%64 == 0 {
+					runtime.Gosched()
+				}
+			}
+			ids[gi] = local
+		}(gi)
+	}
+	wg.Add(1)
+	go func() {
+		defer wg.Done()
+		local := make([]uu.ID, 0, n)
+		for k := 0; k < n; k++ {
+			local = append(local, uu.RandomID())
+		}
+		ids[0] = local
+	}()
+	wg.Wait()
+	seen := make(map[uu.ID]struct{}, 5*n)
+	for _, l := range ids {
+		for _, id := range l {
+			res.Draws++
+			if id.Version() != 4 || id.Variant() != 1 || id.Higher>>12&0xf != 4 || id.Lower>>62 != 2 {
+				res.BadBits++
+				if res.FirstBad == "" {
+					res.FirstBad = id.String()
+				}
+			}
+			for b := 0; b < 64; b++ {
+				res.Ones[b] += int64(id.Lower >> uint(b) & 1)
+				res.Ones[64+b] += int64(id.Higher >> uint(b) & 1)
+			}
+			if _, dup := seen[id]; dup {
+				res.Duplicates++
+				if res.FirstDuplicate == "" {
+					res.FirstDuplicate = id.String()
+				}
+			}
+			seen[id] = struct{}{}
+		}
+	}
+	res.Distinct = int64(len(seen))
 	json.NewEncoder(os.Stdout).Encode(res)
 }
 
@@ -408,6 +475,31 @@ func runC19(c *rt.Ctx) {
 		return res, c19RaceBlocks(sub), errb.String(), nil
 	}
 
+	type job struct {
+		g, procs, rep int
+		name          string
+		res           c19Result
+		blocks        []string
+		stderr        string
+		err           error
+	}
+	// silence, then a burst from other goroutines: started now, runs beside everything else (it mostly sleeps)
+	var pauseJobs []*job
+	var pauseWG sync.WaitGroup
+	pauses := []int{35}
+	if !c.Quick() {
+		pauses = []int{35, 75, 130, 310}
+	}
+	for _, secs := range pauses {
+		j := &job{g: 5, procs: runtime.GOMAXPROCS(0), name: fmt.Sprintf("pause%d", secs)}
+		pauseJobs = append(pauseJobs, j)
+		pauseWG.Add(1)
+		go func(j *job, secs int) {
+			defer pauseWG.Done()
+			j.res, j.blocks, j.stderr, j.err = runChild(j.name, fmt.Sprintf("pause/%d/%d", secs, 20000))
+		}(j, secs)
+	}
+
 	// positive control
 	_, blocks, _, err := runChild("control", "control")
 	c.SelfTest("race-detector-armed (positive control reported a race)", err == nil && len(blocks) >= 1)
@@ -464,14 +556,6 @@ func runC19(c *rt.Ctx) {
 	}
 	var stats []cfgStat
 	raceKinds := map[string]int{}
-	type job struct {
-		g, procs, rep int
-		name          string
-		res           c19Result
-		blocks        []string
-		stderr        string
-		err           error
-	}
 	var jobs []*job
 	for _, g := range []int{1, 2, 8, 64} {
 		for _, procs := range []int{1, 2, 4, 16} {
@@ -482,6 +566,8 @@ func runC19(c *rt.Ctx) {
 	}
 	// a process confined to one CPU (single-core container, taskset): code that counts CPUs at start-up takes other paths
 	jobs = append(jobs, &job{g: 8, procs: 4, rep: 0, name: "onecpu-g8-p4"}, &job{g: 2, procs: 1, rep: 0, name: "onecpu-g2-p1"})
+	// bursts of hundreds and thousands of simultaneous callers (a server under load): far more goroutines inside the call than CPUs
+	jobs = append(jobs, &job{g: 2048, procs: 16, rep: 0, name: "burst-g2048-p16"}, &job{g: 512, procs: 4, rep: 0, name: "burst-g512-p4"}, &job{g: 4000, procs: 2, rep: 0, name: "burst-g4000-p2"})
 	{
 		sem := make(chan struct{}, 3) // a few children at a time: they also perturb each other's scheduling
 		var wg sync.WaitGroup
@@ -497,6 +583,8 @@ func runC19(c *rt.Ctx) {
 		}
 		wg.Wait()
 	}
+	pauseWG.Wait()
+	jobs = append(jobs, pauseJobs...)
 	c.Serial("draws", func(w *rt.W) {
 		for _, j := range jobs {
 			{
@@ -556,12 +644,16 @@ func runC19(c *rt.Ctx) {
 					} else if len(blocks) > 0 {
 						c.Inconclusive(fmt.Sprintf("%d race reports without uu frames in %s (harness race?)", len(blocks), name))
 					}
-					if g > 1 && res.Handoffs == 0 {
+					if g > 1 && res.Handoffs == 0 && !strings.HasPrefix(name, "pause") {
 						c.Inconclusive("configuration " + name + " showed no goroutine hand-off at all")
 					}
 					stats = append(stats, cfgStat{g, procs, rep, int64(res.Draws), res.Handoffs, res.MaxRun, res.Distinct, res.MinDistinctWindow, len(blocks)})
 					if strings.HasPrefix(name, "onecpu") {
 						w.ClassN("config-single-cpu", 1)
+					} else if strings.HasPrefix(name, "pause") {
+						w.ClassN("config-silence-then-burst", 1)
+					} else if strings.HasPrefix(name, "burst") {
+						w.ClassN("config-burst-of-callers", 1)
 					} else {
 						w.ClassN(fmt.Sprintf("config-G%d", g), 1)
 					}
@@ -596,6 +688,8 @@ func runC19(c *rt.Ctx) {
 	c.Extra("total_draws", totalDraws)
 	c.Require("concurrent-handoffs", 1000)
 	c.Require("per-bit-monitor", 1)
+	c.Require("config-silence-then-burst", int64(len(pauses)))
+	c.Require("config-burst-of-callers", 3)
 	for _, g := range []int{1, 2, 8, 64} {
 		c.Require(fmt.Sprintf("config-G%d", g), int64(4*reps))
 	}
